@@ -81,7 +81,99 @@ func runMarshalTo(pkt bool, d hdrDesc, payload []byte, pad int, dst []byte) Outc
 	case !bytes.Equal(buf[n:], before[n:]):
 		o.Fail = "bytes beyond MarshalSize were modified"
 	}
+	if o.Fail == "" && pkt {
+		o.Fail = marshalToAfterEdit(d, payload, pad, len(dst))
+	}
 	return o
+}
+
+// marshalToAfterEdit: the contract holds for the packet as it is NOW, whatever was marshalled from the
+// same *Packet before.  The packet is marshalled once (MarshalTo through the pointer, as callers that
+// reuse packets do), its header is then edited through the public API (an extension added, replaced by a
+// longer / shorter value or deleted, a CSRC appended or dropped - chosen by the case), and MarshalSize /
+// Marshal / MarshalTo are compared with a packet built from scratch with the same exported fields.
+func marshalToAfterEdit(d hdrDesc, payload []byte, pad int, sel int) string {
+	h, err := d.build()
+	if err != nil {
+		return ""
+	}
+	p := &rtp.Packet{Header: h, Payload: payload, PaddingSize: byte(pad)}
+	scratch := make([]byte, p.MarshalSize()+8)
+	if _, err := p.MarshalTo(scratch); err != nil {
+		return ""
+	}
+	edit := "none"
+	ids := p.GetExtensionIDs()
+	switch k := sel % 6; {
+	case k == 0 && (!p.Extension || p.ExtensionProfile == 0xBEDE || isTwoByte(p.ExtensionProfile)):
+		for id := uint8(1); id <= 14; id++ {
+			if p.GetExtension(id) == nil {
+				if p.SetExtension(id, []byte{0xE1, 0xE2, 0xE3, 0xE4, 0xE5}) == nil {
+					edit = fmt.Sprintf("SetExtension(%d, 5 bytes)", id)
+				}
+				break
+			}
+		}
+	case k == 1 && len(ids) > 0:
+		if p.DelExtension(ids[len(ids)-1]) == nil {
+			edit = fmt.Sprintf("DelExtension(%d)", ids[len(ids)-1])
+		}
+	case k == 2 && len(ids) > 0 && ids[0] != 0:
+		v := p.GetExtension(ids[0])
+		nv := append(append([]byte{}, v...), 0xF1, 0xF2, 0xF3, 0xF4)
+		if len(v) > 4 {
+			nv = nv[:2]
+		}
+		if p.SetExtension(ids[0], nv) == nil {
+			edit = fmt.Sprintf("SetExtension(%d, %d bytes instead of %d)", ids[0], len(nv), len(v))
+		}
+	case k == 3 && len(p.CSRC) < 15:
+		p.CSRC = append(append([]uint32{}, p.CSRC...), 0xC0C1C2C3)
+		edit = "CSRC appended"
+	case k == 4 && len(p.CSRC) > 0:
+		p.CSRC = p.CSRC[:len(p.CSRC)-1]
+		edit = "CSRC dropped"
+	case k == 5:
+		p.Payload = append(append([]byte{}, p.Payload...), 1, 2, 3)
+		edit = "payload grown"
+	}
+	if edit == "none" {
+		return ""
+	}
+	fresh := &rtp.Packet{
+		Header: rtp.Header{Version: p.Version, Padding: p.Padding, Extension: p.Extension, Marker: p.Marker, PayloadType: p.PayloadType,
+			SequenceNumber: p.SequenceNumber, Timestamp: p.Timestamp, SSRC: p.SSRC, CSRC: p.CSRC,
+			ExtensionProfile: p.ExtensionProfile, Extensions: p.Extensions},
+		Payload: p.Payload, PaddingSize: p.PaddingSize,
+	}
+	want, werr := fresh.Marshal()
+	if werr != nil {
+		return ""
+	}
+	var why string
+	if pn, what := catch(func() {
+		if size := p.MarshalSize(); size != len(want) {
+			why = fmt.Sprintf("after MarshalTo and then %s: MarshalSize is %d, the packet serialises to %d bytes", edit, size, len(want))
+			return
+		}
+		if got, err := p.Marshal(); err != nil || !bytes.Equal(got, want) {
+			why = fmt.Sprintf("after MarshalTo and then %s: Marshal gives %x (err %v), a packet with the same fields gives %x", edit, got, err, want)
+			return
+		}
+		exact := bytes.Repeat([]byte{0xEE}, len(want))
+		if n, err := p.MarshalTo(exact); err != nil || n != len(want) || !bytes.Equal(exact, want) {
+			why = fmt.Sprintf("after MarshalTo and then %s: MarshalTo into exactly MarshalSize bytes: n=%d err=%v", edit, n, err)
+			return
+		}
+		if len(want) > 0 {
+			if _, err := p.MarshalTo(make([]byte, len(want)-1)); err == nil || !errors.Is(err, io.ErrShortBuffer) {
+				why = fmt.Sprintf("after MarshalTo and then %s: a destination one byte short was not refused (err %v)", edit, err)
+			}
+		}
+	}); pn {
+		return "after MarshalTo and then " + edit + ": panic: " + what
+	}
+	return why
 }
 
 func init() {
@@ -95,6 +187,25 @@ func init() {
 			emit(105, dp.tok(), TB([]byte{1, 2}), TI(4), TB(bytes.Repeat([]byte{0xEE}, 30)))
 			emit(105, dp.tok(), TB([]byte{1, 2}), TI(4), TB(bytes.Repeat([]byte{0xEE}, 18)))
 			emit(105, dp.tok(), TB([]byte{1, 2}), TI(4), TB(bytes.Repeat([]byte{0xEE}, 17)))
+			// the largest legal extension blocks (the byte count of the block does not fit 16 bits): all 255
+			// two-byte ids with 255-byte values, legacy values of 16384 and 65535 words
+			full := hdrDesc{version: 2, ext: true, profile: 0x1000}
+			for id := 1; id <= 255; id++ {
+				full.exts = append(full.exts, extD{uint8(id), bytes.Repeat([]byte{byte(id)}, 255)})
+			}
+			bigs := []hdrDesc{full}
+			for _, words := range []int{16384, 65535} {
+				bigs = append(bigs, hdrDesc{version: 2, ext: true, profile: 0x1234, exts: []extD{{0, bytes.Repeat([]byte{0xAB}, 4*words)}}})
+			}
+			for _, bd := range bigs {
+				if bh, err := bd.build(); err == nil {
+					size := bh.MarshalSize()
+					for _, l := range []int{100, size - 1, size, size + 3} {
+						emit(106, bd.tok(), TB(bytes.Repeat([]byte{0xEE}, l)))
+						emit(105, bd.tok(), TB([]byte{1, 2, 3}), TI(0), TB(bytes.Repeat([]byte{0xEE}, l+3)))
+					}
+				}
+			}
 			for i := 0; i < n; {
 				c := r.Fork(uint64(i))
 				d, pl, pad := genWfPacket(c)
